@@ -36,6 +36,7 @@ class Raised(Exception):
         self.node = node
 
 
+_PURE_BUILTIN_VALUES = frozenset({'repr', 'str', 'len', 'int', 'float', 'bool', 'abs', 'min', 'max', 'sum', 'sorted', 'ord', 'chr', 'tuple', 'list'})
 SAFE_STR_METHODS = {'isdecimal', 'isnumeric', 'isspace', 'isascii', 'startswith', 'endswith', 'lower', 'upper', 'strip', 'lstrip', 'rstrip', 'isidentifier',
                     'isalpha', 'isalnum', 'isupper', 'islower', 'isdigit', 'split', 'rsplit', 'casefold',
                     'removeprefix', 'removesuffix', 'capitalize', 'title', 'replace', 'join', 'splitlines', 'isdigit', 'isupper',
@@ -372,6 +373,9 @@ class MiniEval:
             return _BUILTIN_TYPES[name]
         if name in _ABC_TYPES:
             return _ABC_TYPES[name]  # only usable in isinstance(): the abstract container classes of collections.abc
+        if name in _PURE_BUILTIN_VALUES:
+            import builtins
+            return getattr(builtins, name)  # a pure builtin handed on as a value: map(repr, xs), key=len
         raise Unsupported(f'name {name!r} not in the evaluation environment')
 
     def expr(self, e: ast.expr, env: dict) -> Any:
